@@ -1,5 +1,105 @@
-FUNCS = []
-EXPLANATION = ''
-OUTSIDE = ''
-def obligations(tier, seed): return []
-def bounds(tier): return ''
+"""C08-B — parsing any text returns a result or raises a parse failure at a valid position whose line/column agree with it and whose
+message renders; both input classes, parseinfo on/off."""
+from __future__ import annotations
+
+from .. import grammars
+from ..harness import _tracing, mktext
+from ..runner import Ob
+
+UNI = 0x110000
+FUNCS = ['tatsu.exceptions:FailedParse.__init__/pos/render', 'tatsu.contexts.memento:memento (native on witnesses)', 'tatsu.contexts.core:ParserCore.newexcept/set_furthest_exception',
+         'tatsu.contexts.engine:ParserEngine.bound (error selection)', 'tatsu.input.buffer:Buffer/BufferCursor (legacy input through the engine)', 'tatsu.peg.meta:*._parse']
+EXPLANATION = ('B: whole parses of core-language and meta-expression grammars on texts of n symbolic code points through both input classes with parseinfo on and off: only a '
+               'parse failure may escape; its position lies in 0..len, its line info (line, col, start, end, text) agrees with the independent line reference of C12 at the '
+               'clamped position, and str(e) renders (natively on each witness). ')
+OUTSIDE = 'longer texts; custom Text implementations; trace output'
+
+TEXT_GRAMMARS = {
+    'meta_all': "start: @int | @uint | @float | @bool | @name ;\n",
+    'meta_seq': "start: 'a' @uint ['.' @int] $ ;\n",
+    'eol': "start: 'a' $-> 'b' | 'a' ;\n",
+    'multi_line': "start: {line}+ $ ;\nline: /[ab]+/ ;\n",
+    'named_closure': "start: xs+={ 'a' | 'b' } y=[/c/] $ ;\n",
+}
+CORE_QUICK = ['seq_eof', 'choice_order', 'join_plus', 'lookaheads', 'named_defaults', 'rule_list_nested', 'skipto', 'leftrec_basic', 'pattern_no_ws', 'constant']
+
+
+def make_errors(spec):
+    import tatsu
+    from tatsu.exceptions import FailedParse
+    from tatsu.input.buffer import Buffer
+    from ..refpeg import render_grammar
+    from ..pegbody import rules_of
+    from .c12 import is_break_py, ref_lines
+    gtext = spec['gtext'] if 'gtext' in spec else render_grammar(rules_of(spec))
+    model = tatsu.compile(gtext, name='E')
+    legacy = spec['input'] == 'Buffer'
+    pinfo = spec['parseinfo']
+    n = spec['n']
+
+    def body(args):
+        t = mktext(args)
+        try:
+            src = Buffer(t) if legacy else t
+            model.parse(src, parseinfo=pinfo)
+            return True, 'ok', None
+        except FailedParse as e:
+            err = e
+        except RecursionError:
+            return False, 'recursion', None
+        except Exception as ex:  # noqa: BLE001
+            return False, 'non-tatsu-exception', type(ex).__name__ + ': ' + str(ex)[:80]
+        pos = err.pos
+        if not (0 <= pos <= n):
+            return False, 'position-out-of-text', [pos]
+        info = err.info
+        if n > 0:
+            p = pos if pos < n else n - 1
+            sp = ref_lines(t, is_break_py)
+            k = 0
+            while not (sp[k][0] <= p < sp[k][1]):
+                k += 1
+            s, e2 = sp[k]
+            if not (info.line == k and info.col == p - s and info.start == s and info.end == e2 and info.text == t[s:e2]):
+                return False, 'lineinfo-disagrees-with-position', [pos, info.line, info.col, k, p - s]
+        else:
+            if not (info.line == 0 and info.col == 0 and info.text == ''):
+                return False, 'lineinfo-of-empty-text', None
+        if not _tracing():
+            try:
+                msg = str(err)
+                if not isinstance(msg, str) or not msg:
+                    return False, 'message-empty', None
+            except Exception as ex:  # noqa: BLE001
+                return False, 'message-does-not-render', type(ex).__name__ + ': ' + str(ex)[:80]
+        return True, ('fail' if pos > 0 else 'triv:fail0'), [pos]
+
+    body.explain = lambda args: f'grammar:\n{gtext}input={spec["input"]} parseinfo={pinfo} text={mktext(args)!r}'
+    body.warm = [tuple(map(ord, w)) for w in ['', 'a', 'ab', 'a b', '1', 'a1', 'a\n', 'a\nb', '\r\n', 'a 1', 'a.', '1.5', 'tru', 'true', '-', 'a\rb', '\na', 'a,a', 'a+a', 'ab\n', ' \n '] if len(w) == n]
+    return body
+
+
+def obligations(tier, seed):
+    obs = []
+    maxn = 3 if tier == 'quick' else 4
+    fam = [(nm, {'rules': r}) for nm, r in grammars.CORE if tier != 'quick' or nm in CORE_QUICK] + [(nm, {'gtext': g}) for nm, g in TEXT_GRAMMARS.items()]
+    for nm, gs in fam:
+        variants = [('TextLines', False), ('Buffer', True)] if tier == 'quick' else [('TextLines', False), ('TextLines', True), ('Buffer', False), ('Buffer', True)]
+        for inp, pinfo in variants:
+            for n in ((0, 2, 3) if tier == 'quick' else range(0, maxn + 1)):
+                pre = ' and '.join(f'c{i} < 128' for i in range(n)) if nm.startswith('meta') else ''
+                spec = {'grammar': nm, 'program': nm, 'input': inp, 'parseinfo': pinfo, 'n': n, **gs}
+                obs.append(Ob(name=f'B_{nm}_{inp}_{"pi" if pinfo else "np"}_L{n}', factory='vt.props.c08b:make_errors', spec=spec,
+                              params=[(f'c{i}', 0, UNI) for i in range(n)], budget={0: 40, 1: 40, 2: 90, 3: 300, 4: 1500}[n], group='B', extra_pre=pre))
+    # C: compiling near-grammar text (shares the symbolic-hole machinery of C15)
+    from . import c15
+    for o in c15.obligations('quick', seed, group='C'):
+        if tier != 'quick' or o.name in ('hole1_rule_def_op', 'hole1_leading', 'hole1_alert_level'):
+            o.name = 'C_' + o.name
+            obs.append(o)
+    return obs
+
+
+def bounds(tier):
+    return (f'B: {10 if tier == "quick" else 40}+5 grammars x input class x parseinfo, text length 0..{3 if tier == "quick" else 4} over all Unicode (ASCII for the meta grammars). '
+            'C: grammar text with a 1-code-point symbolic hole at the seeds of C15 (quick: 3 seeds): only TatSu exception types escape compile().')
